@@ -67,6 +67,21 @@ var guardSpecs = []guardSpec{
 	{"updNotRestartableGuard", "pkg/webhook/v1beta1/experiment/validator/validator.go", "ValidateExperiment", `Child("resumePolicy"), instance.Spec.ResumePolicy, msg)`, updAtoms, updParams, false},
 	{"updMaxNotAboveGuard", "pkg/webhook/v1beta1/experiment/validator/validator.go", "ValidateExperiment", `"must be greater than status.trials count"`, updAtoms, updParams, false},
 	{"updForbiddenGuard", "pkg/webhook/v1beta1/experiment/validator/validator.go", "ValidateExperiment", "field.Forbidden(specPath", updAtoms, updParams, false},
+	{"errNameGuard", "pkg/webhook/v1beta1/experiment/validator/validator.go", "ValidateExperiment", `Child("name"), instance.Name, msg)`, updAtoms, updParams, false},
+	{"errMaxFailedNegativeGuard", "pkg/webhook/v1beta1/experiment/validator/validator.go", "ValidateExperiment", `"should not be less than 0"`, updAtoms, updParams, false},
+	{"errMaxNotPositiveGuard", "pkg/webhook/v1beta1/experiment/validator/validator.go", "ValidateExperiment", `*instance.Spec.MaxTrialCount, "must be greater than 0"`, updAtoms, updParams, false},
+	{"errParNotPositiveGuard", "pkg/webhook/v1beta1/experiment/validator/validator.go", "ValidateExperiment", `*instance.Spec.ParallelTrialCount, "must be greater than 0"`, updAtoms, updParams, false},
+	{"errMaxFailedAboveMaxGuard", "pkg/webhook/v1beta1/experiment/validator/validator.go", "ValidateExperiment", `*instance.Spec.MaxFailedTrialCount, "should be less than or equal to spec.maxTrialCount"`, updAtoms, updParams, false},
+	{"errParAboveMaxGuard", "pkg/webhook/v1beta1/experiment/validator/validator.go", "ValidateExperiment", `*instance.Spec.ParallelTrialCount, "should be less than or equal to spec.maxTrialCount"`, updAtoms, updParams, false},
+	{"objMissingGuard", "pkg/webhook/v1beta1/experiment/validator/validator.go", "validateObjective", `field.Required(objectivePath, "must be specified")`, objAtoms, objParams, false},
+	{"objTypeGuard", "pkg/webhook/v1beta1/experiment/validator/validator.go", "validateObjective", `objectivePath.Child("type")`, objAtoms, objParams, false},
+	{"objMetricGuard", "pkg/webhook/v1beta1/experiment/validator/validator.go", "validateObjective", `objectivePath.Child("objectiveMetricName")`, objAtoms, objParams, false},
+	{"objAdditionalGuard", "pkg/webhook/v1beta1/experiment/validator/validator.go", "validateObjective", `objectivePath.Child("additionalMetricNames")`, objAtoms, objParams, false},
+	{"algMissingGuard", "pkg/webhook/v1beta1/experiment/validator/validator.go", "validateAlgorithm", `field.Required(algorithmPath, "must be specified")`, algAtoms, algParams, false},
+	{"algNameEmptyGuard", "pkg/webhook/v1beta1/experiment/validator/validator.go", "validateAlgorithm", `field.Required(algorithmPath.Child("algorithmName")`, algAtoms, algParams, false},
+	{"algUnknownGuard", "pkg/webhook/v1beta1/experiment/validator/validator.go", "validateAlgorithm", `field.Invalid(algorithmPath.Child("algorithmName")`, algAtoms, algParams, false},
+	{"esNameEmptyGuard", "pkg/webhook/v1beta1/experiment/validator/validator.go", "validateEarlyStopping", `field.Required(earlyStoppingPath.Child("algorithmName")`, algAtoms, algParams, false},
+	{"esUnknownGuard", "pkg/webhook/v1beta1/experiment/validator/validator.go", "validateEarlyStopping", `field.Invalid(earlyStoppingPath.Child("algorithmName")`, algAtoms, algParams, false},
 	{"addFinalizerGuard", "pkg/controller.v1beta1/trial/trial_controller_util.go", "needUpdateFinalizers", "append(pendingFinalizers, cleanMetricsFinalizer)", finAtoms, finParams, false},
 	{"removeFinalizerGuard", "pkg/controller.v1beta1/trial/trial_controller_util.go", "needUpdateFinalizers", "stmt:finalizers := []string{}", finAtoms, finParams, false},
 	{"dbCleanupGuard", "pkg/controller.v1beta1/trial/trial_controller_util.go", "updateFinalizers", "r.DeleteTrialObservationLog(instance)", finAtoms, finParams, false},
@@ -164,6 +179,19 @@ var updAtoms = map[string]string{
 }
 var updParams = []string{"isUpdate", "specChanged", "oldCompleted", "oldRestartable", "maxSet", "maxNotAboveTrials", "specEqual1", "specEqual2",
 	"nameOk", "nameLong", "maxFailedSet", "maxFailedNegative", "maxNotPositive", "parSet", "parNotPositive", "maxFailedAboveMax", "parAboveMax"}
+
+var objAtoms = map[string]string{
+	"obj == nil": "objNil", "obj.Type != commonapiv1beta1.ObjectiveTypeMinimize": "typeNotMinimize",
+	"obj.Type != commonapiv1beta1.ObjectiveTypeMaximize": "typeNotMaximize", `obj.ObjectiveMetricName == ""`: "metricEmpty",
+	"contains(obj.AdditionalMetricNames, obj.ObjectiveMetricName)": "additionalHasMetric",
+}
+var objParams = []string{"objNil", "typeNotMinimize", "typeNotMaximize", "metricEmpty", "additionalHasMetric"}
+
+var algAtoms = map[string]string{
+	"ag == nil": "specNil", "es == nil": "specNil", `ag.AlgorithmName == ""`: "nameEmpty", `es.AlgorithmName == ""`: "nameEmpty",
+	"err != nil": "lookupFailed",
+}
+var algParams = []string{"specNil", "nameEmpty", "lookupFailed"}
 
 var finAtoms = map[string]string{
 	"trial.ObjectMeta.DeletionTimestamp.IsZero()": "(!deleting)", "instance.ObjectMeta.DeletionTimestamp.IsZero()": "(!deleting)",
